@@ -61,6 +61,15 @@ func doEqualString(first interface{}, second reflect.Value) bool {
 	return first.(string) == second.String()
 }
 
+// Get rid of 0 to many levels of pointers to get at the real value. The zero
+// Value is returned when a nil pointer (or nil interface) is met on the way.
+func derefValue(value reflect.Value) reflect.Value {
+	for value.IsValid() && value.Kind() == reflect.Ptr {
+		value = value.Elem()
+	}
+	return value
+}
+
 // Get rid of 0 to many levels of pointers to get at the real type
 func derefType(rtype reflect.Type) reflect.Type {
 	for rtype.Kind() == reflect.Ptr {
@@ -138,8 +147,12 @@ func doMatchIn(expression *grammar.MatchExpression, value reflect.Value) (bool, 
 			// have to treat each element individually, checking each element's
 			// type/kind and rederiving the match value.
 			for i := 0; i < value.Len(); i++ {
-				item := value.Index(i).Elem()
-				itemType := derefType(item.Type())
+				item := derefValue(value.Index(i).Elem())
+				if !item.IsValid() {
+					// nil element (or nil pointer): equal to no literal
+					continue
+				}
+				itemType := item.Type()
 				kind := itemType.Kind()
 				// We need to special case errors here. The reason is that in an
 				// interface slice there can be a mix/match of types, but the
@@ -163,7 +176,7 @@ func doMatchIn(expression *grammar.MatchExpression, value reflect.Value) (bool, 
 					return false, fmt.Errorf(`unable to find suitable primitive comparison function for "in" comparison in interface slice: %s`, kind)
 				}
 				// the value will be the correct type as we verified the itemType
-				if eqFn(matchValue, reflect.Indirect(item)) {
+				if eqFn(matchValue, item) {
 					return true, nil
 				}
 			}
@@ -182,9 +195,13 @@ func doMatchIn(expression *grammar.MatchExpression, value reflect.Value) (bool, 
 				return false, errors.New(`unable to find suitable primitive comparison function for "in" comparison`)
 			}
 			for i := 0; i < value.Len(); i++ {
-				item := value.Index(i)
+				item := derefValue(value.Index(i))
+				if !item.IsValid() {
+					// nil pointer element: equal to no literal
+					continue
+				}
 				// the value will be the correct type as we verified the itemType
-				if eqFn(matchValue, reflect.Indirect(item)) {
+				if eqFn(matchValue, item) {
 					return true, nil
 				}
 			}
